@@ -4,6 +4,7 @@
 -/
 import PetlProofs.HashJoin
 import PetlProofs.Props.C06
+import PetlProofs.Props.C05
 
 namespace Petl.C07
 open Petl
@@ -93,6 +94,75 @@ theorem hashantijoin_perm_antijoin (lidx ridx : List Nat) (bs : Option Nat)
       (antiGroups (C06.sideGroups lidx bs L) (C06.sideGroups ridx bs R)) := by
   rw [hashAnti_eq, C06.antijoin_eq_filter lidx ridx bs hbs L R]
   exact (unmatchedL_perm _ _ (C06.sorted_perm lidx bs hbs L) (C06.sorted_perm ridx bs hbs R)).symm
+
+
+/-- hashrightjoin: each right row (in right-table order) with its partners in left-table order, or padded -/
+theorem hashrightjoin_eq_nested_loop (ops : JoinOps) (kl kr) (L R : List Row) :
+    hashRight ops kl kr L R = nlRight ops kl kr L R := hashRight_eq ops kl kr L R
+
+/-- … the same multiset of rows as the sort-merge rightjoin -/
+theorem hashrightjoin_perm_rightjoin (ops : JoinOps) (lidx ridx : List Nat) (bs : Option Nat)
+    (hbs : ∀ b, bs = some b → 1 ≤ b) (L R : List Row) :
+    (hashRight ops (getKey lidx) (getKey ridx) L R).Perm
+      (mergeGroups ops false true (C06.sideGroups lidx bs L) (C06.sideGroups ridx bs R)) := by
+  rw [hashRight_eq]
+  refine (nlRight_perm ops _ _ L R).trans ?_
+  have := C06.outerjoin_perm ops lidx ridx bs hbs false true L R
+  simpa using this.symm
+
+/-- key-equivalence under the sort order is `==` on keys -/
+theorem eqv_rowLe_iff (idx : List Nat) (a b : Row) :
+    eqv (rowLe idx false) a b = Val.eq (getKey idx a) (getKey idx b) := by
+  have h := Val.incomparable_iff_eq (getKey idx a) (getKey idx b)
+  cases he : Val.eq (getKey idx a) (getKey idx b)
+  · cases h1 : Val.lt (getKey idx a) (getKey idx b) <;> cases h2 : Val.lt (getKey idx b) (getKey idx a) <;>
+      simp [eqv, rowLe, h1, h2]
+    exact absurd (h.1 ⟨h1, h2⟩) (by simp [he])
+  · have := h.2 he
+    simp [eqv, rowLe, this.1, this.2]
+
+/-- the first partner of a key in a table does not change when the table is stably sorted by that key -/
+theorem find_first_partner_sorted (ridx : List Nat) (bs : Option Nat) (hbs : ∀ b, bs = some b → 1 ≤ b)
+    (R : List Row) (k : Val) :
+    (sortRows (rowLe ridx false) bs R).find? (fun r => Val.eq k (getKey ridx r))
+      = R.find? (fun r => Val.eq k (getKey ridx r)) := by
+  have hst := (C05.sortRows_stable_sort ridx false bs hbs R).2
+  have hperm := C05.sortRows_perm ridx false bs hbs R
+  by_cases hex : ∃ a ∈ R, Val.eq k (getKey ridx a) = true
+  · obtain ⟨a, _, hka⟩ := hex
+    have hp : (fun r => Val.eq k (getKey ridx r)) = eqv (rowLe ridx false) a := by
+      funext r
+      rw [eqv_rowLe_iff]
+      cases h1 : Val.eq (getKey ridx a) (getKey ridx r)
+      · cases h2 : Val.eq k (getKey ridx r)
+        · rfl
+        · have := Val.eq_trans _ _ _ (by rw [Val.eq_symm]; exact hka) h2
+          rw [this] at h1; cases h1
+      · exact Val.eq_trans _ _ _ hka h1
+    rw [hp, ← List.head?_filter, ← List.head?_filter, hst a]
+  · have hnone : ∀ (X : List Row), (∀ x ∈ X, x ∈ R) → X.find? (fun r => Val.eq k (getKey ridx r)) = none := by
+      intro X hX
+      rw [List.find?_eq_none]
+      intro x hx hk
+      exact hex ⟨x, hX x hx, hk⟩
+    rw [hnone _ (fun x hx => hperm.mem_iff.1 hx), hnone R (fun _ h => h)]
+
+/-- hashlookupjoin pairs every left row with the same partner as the sort-merge lookupjoin, hence the
+    same multiset of rows -/
+theorem hashlookupjoin_perm_lookupjoin (ops : JoinOps) (lidx ridx : List Nat) (bs : Option Nat)
+    (hbs : ∀ b, bs = some b → 1 ≤ b) (L R : List Row) :
+    (hashLookup ops (getKey lidx) (getKey ridx) L R).Perm
+      (lookupGroups ops (C06.sideGroups lidx bs L) (C06.sideGroups ridx bs R)) := by
+  rw [hashLookup_eq, C06.lookupjoin_eq_first_partner ops lidx ridx bs hbs L R]
+  have h1 : nlLookup ops (getKey lidx) (getKey ridx) (sortRows (rowLe lidx false) bs L) (sortRows (rowLe ridx false) bs R)
+      = nlLookup ops (getKey lidx) (getKey ridx) (sortRows (rowLe lidx false) bs L) R := by
+    unfold nlLookup
+    apply List.map_congr_left
+    intro l _
+    rw [find_first_partner_sorted ridx bs hbs R (getKey lidx l)]
+  rw [h1]
+  unfold nlLookup
+  exact ((C05.sortRows_perm lidx false bs hbs L).map _).symm
 
 /-! non-vacuity: a key class with two rows whose keys are equal across number types -/
 example : ([[Val.num .int (.fin 1), .str [97]], [.num .float (.fin 1), .str [98]]].filter
